@@ -28,7 +28,7 @@ for i in ids:
         os.makedirs(scratch)
         shutil.copytree('/repo/src', scratch + '/src')
         a = subprocess.run(['patch', '-p1', '-s', '-d', scratch, '-i', f'{d}/patch.diff'], capture_output=True, text=True)
-        env_extra = {'VERIF_REPO': scratch}
+        env_extra = {'VERIF_REPO': scratch, 'VERIF_SKIP_KANI': '1'}
     if a.returncode != 0:
         meta['checks'] = {'error': 'patch does not apply to the current /repo: ' + a.stderr[:200]}
     else:
